@@ -713,8 +713,7 @@ def response_side(S: Any) -> None:
     if negotiated is not None:
         flag = ["absent", False, True][S.choose(3)]
         pre = S.choose(2) == 1
-        if not pre:
-            kind = STREAM_KINDS[S.choose(len(STREAM_KINDS))]
+        kind = STREAM_KINDS[S.choose(len(STREAM_KINDS))]  # the producer's own body is a seekable file too (pa.BufferReader)
     ctype = S.str("content_type")
     if pre:
         S.assume(eq(ctype, ARROW))  # the streaming producer answers with an Arrow IPC stream (O5: it compresses only a published codec)
